@@ -63,8 +63,33 @@ struct DR_ : state_machine_def<DR_> {
 typedef BE<DR_> DR;
 #endif
 static std::string vs(const std::vector<int>& v){ std::string s; for (int x : v) s += std::to_string(x) + " "; return s; }
+// handled in one region and deferred in another by the SAME event (result TRUE|DEFERRED): the state entered in the first region has a
+// completion transition, which must fire at once - before the deferred copy of the event is offered again (C10, C05).  back / back11 only:
+// backmp11 documents that an event one region defers is deferred for ALL regions instead of being processed (tutorial, "Deferring events in
+// orthogonal regions"), so the situation does not arise there; and the state reached must not handle the event again (back documents that
+// re-evaluation per region can recurse without end).
+#if !IS_MP11
+static std::string g_clog;
+struct CLog { template<class Ev,class Fsm,class S,class T> void operator()(Ev const&,Fsm&,S&,T&){ g_clog += "overrun "; } };
+struct CFire { template<class Ev,class Fsm,class S,class T> void operator()(Ev const&,Fsm&,S&,T&){ g_clog += "fired "; } };
+struct CD_ : state_machine_def<CD_> {
+  struct Idle : state<> {}; struct Armed : state<> {}; struct Fired : state<> {}; struct Overrun : state<> {};
+  struct Hold : state<> { typedef mpl::vector<G> deferred_events; }; struct Free : state<> {};
+  typedef mpl::vector<Idle,Hold> initial_state;
+  struct transition_table : mpl::vector<
+    Row<Idle,G,Armed,none,none>, Row<Armed,none,Fired,CFire,none>, Row<Armed,G,Overrun,CLog,none>, Row<Hold,N,Free,none,none>, Row<Free,G,none,none,none> > {};
+  template<class Fsm,class Ev> void no_transition(Ev const&,Fsm&,int){ ++g_nt; }
+};
+typedef BE<CD_> CD;
+#endif
 int main(int argc, char** argv) {
   if (argc > 1) g_only = argv[1];
+#if !IS_MP11
+  { g_clog.clear(); g_nt = 0; CD m; m.start(); m.process_event(G());          // region A: Idle -> Armed (-> Fired by completion); region B defers G
+    const bool fired_now = g_clog == "fired ";
+    m.process_event(N());                                                        // region B stops deferring: the pending G is re-offered (Fired ignores it internally)
+    report("handled-and-deferred.completion-fires-before-the-deferred-copy", fired_now && g_clog == "fired " && g_nt == 0, "C10,C05", "log=[" + g_clog + "] nt=" + std::to_string(g_nt)); }
+#endif
   int ks[] = {0,1,2,60,124,125,126,127,128,129,253,254,255,256,257};
   for (int k : ks) {
     g_seen.clear(); g_nt = 0; M m; m.start();
